@@ -148,6 +148,33 @@ fn check_truncate(ctx: &Ctx, c: &Case) -> PResult {
             None => return Err(Fail::new("truncate-shape-depends-on-values", "two builds differ in layout")),
         }
     }
+    // model-free adversary: the result (or one internal wire) decided by the
+    // prover, input kept, every other wire re-solved row by row
+    {
+        let inp = g.handle_wit(2);
+        let mut forged: Vec<(&str, F)> = vec![("result + 1", want + F::one()), ("input itself", x), ("result + 2^N", want + f_pow2(n as u32))];
+        for k in 1..=2u32 {
+            if let Some((_, l)) = gadget::alias_split(&x, k, n) {
+                forged.push(("low part of x + k r", f_of(l)));
+            }
+        }
+        for (name, fv) in forged {
+            if fv == want {
+                continue;
+            }
+            ctx.add_evals(1);
+            ctx.label("adversary: propagation from a forged result");
+            if let Some(msg) = gadget::propagation_attack(&g, &[(inp, x), (ret_w, fv)], c.seed, &format!("component_truncate::<{n}>({}), returned witness forced to {name}", fe_short(&x)), |_| true)? {
+                return Err(Fail::new("truncate-resolved-wires-accepted", msg));
+            }
+        }
+        let (k, hit) = gadget::wire_perturbation_attacks(&g, 1, &[inp], 6, c.seed ^ c.small as u64, c.seed, &format!("component_truncate::<{n}>({})", fe_short(&x)), |asg| asg[ret_w] != want)?;
+        ctx.add_evals(k);
+        ctx.label_n("adversary: single-wire perturbation + propagation", k);
+        if let Some(msg) = hit {
+            return Err(Fail::new("truncate-resolved-wires-accepted", msg));
+        }
+    }
     let (hh, hl) = gadget::honest_split(&x, n);
     let honest_segs = gadget::truncate_segs(n, hh, hl, &BtsForge::default());
     let honest_ranges = gadget::truncate_ranges(n, hh, hl, &BtsForge::default());
@@ -281,6 +308,32 @@ fn check_decomposition(ctx: &Ctx, c: &Case) -> PResult {
             None => return Err(Fail::new("decomposition-shape-depends-on-values", "two builds differ in layout")),
         }
     }
+    // model-free adversary: one bit flipped (or the input out of range), input
+    // kept, running sums re-solved row by row
+    {
+        let inp = g.handle_wit(2);
+        let i = (c.small as usize) % n;
+        let bw = g.handle_wit(3 + i);
+        for (name, fv) in [("flipped", F::one() - want_bits[i]), ("set to 2", F::from(2u64)), ("set to -1", -F::one())] {
+            ctx.add_evals(1);
+            ctx.label("adversary: propagation from a forged bit");
+            let wb = want_bits.clone();
+            let gref = &g;
+            if let Some(msg) = gadget::propagation_attack(&g, &[(inp, x), (bw, fv)], c.seed, &format!("component_decomposition::<{n}>({}), bit {i} {name}", fe_short(&x)), move |asg| {
+                (0..n).any(|j| asg[gref.handle_wit(3 + j)] != wb[j])
+            })? {
+                return Err(Fail::new("decomposition-resolved-wires-accepted", msg));
+            }
+        }
+        if !fits {
+            // oversized input: any completion is a contradiction
+            ctx.add_evals(1);
+            ctx.label("adversary: propagation with an oversized input");
+            if let Some(msg) = gadget::propagation_attack(&g, &[(inp, x)], c.seed, &format!("component_decomposition::<{n}>({}) with the value not below 2^{n}", fe_short(&x)), |_| true)? {
+                return Err(Fail::new("decomposition-resolved-wires-accepted", msg));
+            }
+        }
+    }
     let honest_vec = gadget::decomp_vec(&want_bits);
     if !g.role_model_matches(0, 1, &honest_vec) {
         ctx.label("role model mismatch: adversarial tier skipped");
@@ -380,6 +433,6 @@ pub fn sweeps(ctx: &Ctx) {
 }
 
 pub fn describe(ctx: &Ctx) {
-    ctx.rule("cases: gadget in {truncate N 0..=254, decomposition N 1..=256} (every N in the sweep) x values {0, 1, r-1, 2^N-1, 2^N, 2^N+j, a value whose sum with r fits 255 bits, random below 2^N, small, random}; adversarial assignments on the unchanged layout: truncate {(high,low) split of x+r and x+2r with honest and forged is_top/guard/inverse wires, shifted split, split of another value, forged wires on the honest split, free change of the returned witness}; decomposition {bits of x+r / x+2r when they fit N bits, bits of another value, non-boolean digits with the same sum, oversized top bit}. Oracle: reference row evaluator, any satisfying assignment with a non-canonical result is pushed through the real prover. non-trivial = every case; distinct by (gadget, N, class, value)");
+    ctx.rule("cases: gadget in {truncate N 0..=254, decomposition N 1..=256} (every N in the sweep) x values {0, 1, r-1, 2^N-1, 2^N, 2^N+j, a value whose sum with r fits 255 bits, random below 2^N, small, random}; adversarial assignments on the unchanged layout: truncate {(high,low) split of x+r and x+2r with honest and forged is_top/guard/inverse wires, shifted split, split of another value, forged wires on the honest split, free change of the returned witness}; decomposition {bits of x+r / x+2r when they fit N bits, bits of another value, non-boolean digits with the same sum, oversized top bit}; plus the model-free propagation adversary for both gadgets (returned witness / one bit / one random internal wire decided by the prover, input kept, all other wires re-solved row by row). Oracle: reference row evaluator, any satisfying assignment with a non-canonical result is pushed through the real prover. non-trivial = every case; distinct by (gadget, N, class, value)");
     ctx.assume("role models of truncate/decomposition witness allocation are validated per case against the honest table");
 }
